@@ -527,12 +527,14 @@ func runFnEdited(c *Ctx, m, name, removed string, args []*variants.Variant, plai
 		// find, remove BY INDEX; find in another letter case, remove by index, add
 		switch (len(removed) + len(name)) % 6 {
 		case 4:
+			idx := coll.FindIndexByName(removed) // the index is known before; the last lookup before the removal is `name`
 			coll.FindByName(name)
-			coll.Remove(coll.FindIndexByName(removed))
+			coll.Remove(idx)
 		case 5:
+			idx := coll.FindIndexByName(removed)
 			coll.FindByName(strings.ToLower(name))
 			coll.FindByName(strings.ToUpper(name))
-			coll.Remove(coll.FindIndexByName(removed))
+			coll.Remove(idx)
 			coll.Add(user)
 		case 0:
 			coll.RemoveByName(removed)
